@@ -128,8 +128,17 @@ def iterLoop (step : V → V) (conv : V → Bool) (maxiter : Nat) : Nat → Nat 
     else if it + 1 ≥ maxiter then (x', none)
     else iterLoop step conv maxiter fuel (it + 1) x'
 
+/-- the loop of `iterative_solve` (the code before fix 507ca7d entered it unconditionally and
+raised `ZeroDivisionError` at the first test when `res0 == 0`). -/
 def iterativeSolve (step : V → V) (conv : V → Bool) (maxiter : Nat) (x0 : V) : V × Option Nat :=
   iterLoop step conv maxiter (maxiter - 1) 0 x0
+
+/-- `iterative_solve` as it is now (lines 264-285): `if res0 == 0: return x, 0` — a starting
+vector that already solves the system on the active dofs is returned unchanged with
+iteration count 0 — otherwise the loop above. -/
+def iterativeSolveNow (res0IsZero : Bool) (step : V → V) (conv : V → Bool) (maxiter : Nat)
+    (x0 : V) : V × Option Nat :=
+  if res0IsZero then (x0, some 0) else iterativeSolve step conv maxiter x0
 
 inductive TGExit where
   | converged     -- `res < tol * res0`
